@@ -363,3 +363,179 @@ def r18_6(prog, out):
                                       "the name (e.g. a leading '/') are accepted as aliases of the canonical name" % tr[0])
                     else:
                         out.holds(k2, ci.loc(bb), "the parser is given the request string untransformed", nontrivial=False)
+
+
+@rule("C18", "R18.8", "every map from names to resources, wherever it lives, is keyed by the parsed name type", floor=3)
+def r18_8(prog, out):
+    """R18.3 checks the maps the design has.  A map added anywhere else (a handler-side cache `HashMap<String, Arc<Topic>>`
+    keyed by the request string as sent) makes two spellings of one name denote different things: found by type, in every
+    struct of the crate."""
+    import re
+    A = prog.anchors
+    handles = {A.ty("Topic"): A.ty("TopicName"), A.ty("Subscription"): A.ty("SubscriptionName")}
+    n = 0
+    for path, adt in prog.facts.adts.items():
+        if not path.startswith("crate::") or path.startswith("crate::pubsub_proto"):
+            continue
+        for v in adt.get("variants", []):
+            for f in v.get("fields", []):
+                ty = f["ty"]
+                for m in re.finditer(r"(?:HashMap|BTreeMap|IndexMap|DashMap)<", ty):
+                    rest = ty[m.end():]
+                    # split K, V at depth 0
+                    depth, k = 0, None
+                    for i, ch in enumerate(rest):
+                        if ch in "<([":
+                            depth += 1
+                        elif ch in ">)]":
+                            if depth == 0:
+                                break
+                            depth -= 1
+                        elif ch == "," and depth == 0 and k is None:
+                            k = rest[:i].strip()
+                            vstart = i + 1
+                    if k is None:
+                        continue
+                    vty = rest[vstart:]
+                    for h, nt in handles.items():
+                        # the value is the resource handle itself (Arc / Weak / Option of it) -- a grouping of handles under some
+                        # other key (`project -> {id -> handle}`) is an index, not a way to resolve a name
+                        v0 = vty.strip()
+                        for _ in range(4):
+                            m2 = re.match(r"^(?:std::sync::Arc|std::sync::Weak|std::option::Option|std::boxed::Box)<(.*)$", v0)
+                            if not m2:
+                                break
+                            v0 = m2.group(1)
+                        if re.match(r"^%s([>, ]|$)" % re.escape(h), v0):
+                            stringish = bool(re.search(r"(^|[<&, ])str([>, ]|$)|::String\b|^String\b", k))
+                            if k != nt and not stringish and k not in handles.values():
+                                continue        # keyed by something that is not a spelling of a name (an internal id)
+                            n += 1
+                            key = "map-key:%s.%s" % (short_ty(path), f["name"])
+                            if k == nt:
+                                out.holds(key, adt.get("span", ""), "keyed by %s" % short_ty(nt))
+                            else:
+                                out.violation(key, adt.get("span", ""), "%s.%s maps %s to %s: resources are looked up under a key that is not the parsed name, so two "
+                                              "spellings of one name (or a stale spelling) can denote different resources" % (short_ty(path), f["name"], short_ty(k), short_ty(h)))
+    if n < 2:
+        raise CheckBroken("expected the managers' maps from names to resources, found %d" % n)
+
+
+@rule("C18", "R18.7", "a name is stored without narrowing: no length / offset of a component is cast to a smaller integer", floor=2)
+def r18_7(prog, out):
+    """`names that differ in project or ID denote different resources` needs the stored representation to be injective in
+    (project, id).  Two owned strings are; a packed representation (one buffer plus a split offset) is as long as the offset
+    is exact.  A narrowing cast of a length or offset inside the name type (`len() as u8`) makes long components wrap: two
+    different names compare equal and the echoed name is not the one that was parsed."""
+    from props.c09 import int_bits
+    n = 0
+    for label, ty in name_types(prog):
+        n += 1
+        bad = None
+        for b in prog.facts.lib_bodies():
+            rb = prog.facts.body(b.root) if b.root else b
+            if (b.impl_self or (rb.impl_self if rb else None)) != ty or b.file.startswith("/"):
+                continue
+            if any(i["self"] == ty and i.get("derived") and b.impl_trait == i["trait"] for i in prog.facts.impls):
+                continue
+            bi = prog.info(b.id)
+            for blk in b.blocks:
+                if blk.cleanup:
+                    continue
+                for st in blk.stmts:
+                    if st.k == "assign" and st.rv.k == "cast" and st.rv.j.get("ck") in ("IntToInt",) and not st.exp:
+                        fb, tb = int_bits(b.ty(st.rv.j["from"])), int_bits(b.ty(st.rv.j["to"]))
+                        if fb and tb and tb < fb:
+                            bad = (b.id, blk.idx, b.ty(st.rv.j["from"]), b.ty(st.rv.j["to"]))
+        key = "%s:no-narrowing" % label
+        if bad:
+            out.violation(key, prog.loc(bad[0], bad[1]), "%s narrows an integer (%s -> %s) while building or reading a name: a component longer than the small type can count "
+                          "wraps, so distinct names collide and the echoed name differs from the parsed one" % (prog.short(bad[0]), bad[2], bad[3]))
+        else:
+            out.holds(key, "", "no narrowing integer cast in %s" % label)
+    if n < 2:
+        raise CheckBroken("expected the topic and the subscription name type")
+
+
+TRIMS = ("trim", "trim_matches", "trim_start", "trim_end", "trim_start_matches", "trim_end_matches", "trim_left", "trim_right",
+         "trim_left_matches", "trim_right_matches", "trim_ascii", "trim_ascii_start", "trim_ascii_end")
+
+
+@rule("C18", "R18.9", "a length requirement checked on the raw input is re-checked on what is stored when the stored form can be shorter", floor=2)
+def r18_9(prog, out):
+    """Echo acceptance, necessary condition.  The parser rejects inputs that are too short.  The canonical form it echoes is
+    built from the *stored* components.  If a component is shortened after the length check (`trim_matches('/')`), an
+    accepted input can be stored in a form whose echo fails that very check (`projects/p/topics/a/` is accepted, is echoed
+    as `projects/p/topics/a`, and that is rejected): check-then-transform.  Required: no trimming of a stored component
+    after a length guard on the raw input, unless a length guard on the stored components follows the trimming."""
+    from slicing import Slicer
+    sl = Slicer(prog)
+    n = 0
+    for label, ty in name_types(prog):
+        for pid in find_parser(prog, ty):
+            n += 1
+            bi = prog.info(pid)
+            b = bi.body
+
+            def len_of(op):
+                """(call bb of a str::len feeding op directly, is it the raw input's length)"""
+                o = bi.trace(op)
+                if o.kind == "call" and not o.path:
+                    t = bi.call_at(o.data)
+                    if t.callee is not None and t.callee.path.endswith("::len") and "str" in t.callee.path:
+                        r = bi.trace(t.args[0])
+                        return o.data, (r.kind == "param" and r.data == 1 and not r.path)
+                return None, False
+
+            cmps = []     # (bb, raw?)
+            for blk in b.blocks:
+                if blk.cleanup or blk.idx not in bi.cfg.reach:
+                    continue
+                for st in blk.stmts:
+                    if st.k == "assign" and st.rv.k == "bin" and st.rv.j["op"] in ("Lt", "Le", "Gt", "Ge", "Eq", "Ne"):
+                        for op in st.rv.ops:
+                            if op.place is None:
+                                continue
+                            lb, raw = len_of(op)
+                            if lb is not None:
+                                cmps.append((blk.idx, raw))
+                            else:
+                                s = sl.of(pid, op)
+                                if any(c.endswith("::len") and "str" in c for c in s.calls):
+                                    # a sum / difference of lengths: raw iff every length in it is the input's
+                                    rawonly = all(r[0] == "param" and r[2] == 1 for r in s.roots) and not any(
+                                        c.split("::")[-1] in TRIMS + ("get", "find", "strip_prefix", "strip_suffix", "split", "splitn", "map") for c in s.calls)
+                                    cmps.append((blk.idx, rawonly))
+            trims = []    # block in pid after which the trimmed value exists
+            for bid in prog.cone(pid, follow=("call", "closure")):
+                ci = prog.info(bid)
+                if ci is None:
+                    continue
+                for bb, t in ci.calls(lambda c: c.path.startswith("core::str::<impl str>::") and c.path.split("::")[-1] in TRIMS):
+                    if bid == pid:
+                        trims.append((bb, t.callee.path.split("::")[-1], prog.loc(bid, bb)))
+                    else:
+                        # in a closure of the parser: the call of the parser that is handed the closure
+                        for blk in b.blocks:
+                            for st in blk.stmts:
+                                if st.k == "assign" and st.rv.k == "agg" and st.rv.j.get("ak") == "closure" and prog.qual(b, st.rv.j["def"]) == bid:
+                                    trims.append((blk.idx, t.callee.path.split("::")[-1], prog.loc(bid, bb)))
+            key = "%s:guard-after-trim" % label
+            raw_guards = [bb for bb, raw in cmps if raw]
+            if not trims:
+                out.holds(key, prog.loc(pid), "no component is trimmed: what is checked is what is stored")
+                continue
+            if not raw_guards:
+                out.holds(key, prog.loc(pid), "no length requirement on the raw input")
+                continue
+            tb, tname, tloc = trims[0]
+            # the trimmed value flows into the stored name?  (a trim used only for a comparison does not matter)
+            later = [bb for bb, raw in cmps if not raw and any(bi.cfg.dominates(t0, bb) or bi.cfg.can_reach(t0, bb) for t0, _, _ in trims)]
+            if later:
+                out.holds(key, bi.loc(later[0]), "the length requirement is re-checked on the components after %s()" % tname)
+            else:
+                out.violation(key, tloc, "the input's length is checked (%s) before the id is shortened by %s(): an accepted name can be stored in a form whose canonical "
+                              "echo is too short to be accepted again (`…/a/` is accepted, echoed as `…/a`, and that is rejected)" % (bi.loc(raw_guards[0]), tname),
+                              ["length guard on the raw input at %s" % bi.loc(raw_guards[0]), "%s() at %s" % (tname, tloc), "no length check on the stored components afterwards"])
+    if n < 2:
+        raise CheckBroken("expected the topic-name and the subscription-name parser")
